@@ -12,3 +12,4 @@ import Sheens.MatchSpecC
 import Sheens.MCrew
 import Sheens.Timers
 import Sheens.Expect
+import Sheens.Tools
